@@ -103,7 +103,7 @@ def extract(config="all", repo=None, crate="loom", target_dir=None, quiet=True):
             for d in os.listdir(fp):
                 if d.startswith(crate.replace("_", "-") + "-") or d.startswith(crate + "-"):
                     shutil.rmtree(os.path.join(fp, d), ignore_errors=True)
-        tmp_out = out + ".new"
+        tmp_out = out + ".new.%d" % os.getpid()      # concurrent extractions of the same tree (different target dirs) must not collide
         if os.path.exists(tmp_out):
             os.remove(tmp_out)
         env = dict(os.environ)
